@@ -23,7 +23,8 @@ def describe(tier):
                 "reason) accordingly; in the quick tier additionally all ASTs with 4 leaves and distinct keys through the transformer entry "
                 "point and the validity check only (the setter writes a ContextVar read by the harness evaluators; expressions with <= 3 leaves also with the library's "
                 "ContentEvaluationResult-based evaluators and a setter that stores the dumped result for the injected provider), also for the two-part forms. "
-                "Non-trivial = expressions with >= 1 O/X operator.",
+                "The validity check is also run on one valid and one invalid expression with 6 and 8 (thorough: 9) distinct requirement keys "
+                "(up to 3^9*2 content evaluation results). Non-trivial = expressions with >= 1 O/X operator.",
         "bounds": {"sizes": BOUNDS[tier]},
         "exhaustive": True,
         "assumptions": ["I6: is_valid_expression is exercised with AHB expressions (its documented input)"],
@@ -38,6 +39,10 @@ def plan(tier, seed):
         parts = {1: 1, 2: 1, 3: 8, 4: 64}[n]
         for p in range(parts):
             items.append({"n": n, "lab": "all" if n <= 2 else "distinct", "part": p, "parts": parts, "seed": seed, "cer_mode": True})
+    # MANY distinct keys (the validity check enumerates 3^m * 2^n content evaluation results): chains of m requirement keys
+    for m in (6, 8) if tier == "quick" else (6, 8, 9):
+        for valid in (True, False):
+            items.append({"many_keys": m, "valid": valid, "seed": seed})
     if tier == "quick":
         # one size beyond the full bound, distinct keys: transformer entry point under all RC assignments + the validity check
         for p in range(128):
@@ -160,9 +165,40 @@ def check_expr_cer_mode(expr):
     return out, 1
 
 
+def check_many_keys(m, valid):
+    """'Muss ([k1] U ... U [km])[950] O <x>' with x = a hint (invalid) / a further requirement key (valid)"""
+    I = X.init()
+    keys = [str(k) for k in (1, 2, 3, 4, 5, 6, 7, 499, 2000)[:m]]
+    expr = "Muss (" + " U ".join(f"[{k}]" for k in keys) + ")[950] O " + (f"[{keys[0]}]" if valid else "[501]")
+    case = {"many_keys": m, "valid": valid, "expr": expr}
+    out = []
+    r = I.try_call(lambda: I.run(I.is_valid_expression(expr, _setter), I.Env(), horizon=600))  # 3^m*2 evaluations take a while
+    if r[0] == "exc":
+        out.append({"kind": "is-valid-raised", "case": case, "expected": str(valid), "observed": r[1], "msg": expr})
+    else:
+        res = r[1]
+        ok = (res == (True, None)) if valid else (isinstance(res, tuple) and len(res) == 2 and res[0] is False and isinstance(res[1], str) and res[1])
+        if not ok:
+            out.append({"kind": "is-valid-wrong/many-keys", "case": case, "expected": "(True, None)" if valid else "(False, reason)",
+                        "observed": repr(res)[:200], "msg": expr})
+    return out, 3 ** m * 2
+
+
 def run_item(item):
     X.init()
     r = Result()
+    if "many_keys" in item:
+        vs, n = check_many_keys(item["many_keys"], item["valid"])
+        r.evaluations += 1
+        r.states += 1
+        r.transitions += n
+        r.traces += 1
+        r.nontrivial += 1
+        r.outcomes.add(item["valid"])
+        for v in vs:
+            r.violation(v["kind"], v["case"], v["expected"], v["observed"], v["msg"])
+        r.sample({"many_keys": item["many_keys"], "valid": item["valid"], "content_evaluation_results": n})
+        return r
     pools = X.pools(item["seed"])
     i = -1
     for ast in A.asts(item["n"], item["lab"], pools={k: v[:5] for k, v in pools.items()}):
@@ -195,6 +231,8 @@ def _ops(t):
 
 
 def replay(case):
+    if "many_keys" in case:
+        return check_many_keys(case["many_keys"], case["valid"])[0]
     if case.get("cer_mode"):
         return check_expr_cer_mode(case["expr"])[0]
     return check_expr(case["expr"], case.get("seed", 0))[0]
